@@ -26,7 +26,8 @@ T = parse_all({
     'comma': '($S, $x, $S)', 'empty': '(empty($S), exists($S))', 'predcond': '$S[. gt $k]',
     'for2': 'for $x in $S, $y in $R return $x * $y', 'forpos': 'for $x in $S return ($x, $x + 1)',
     'poslast': '$S ! (position(), last())', 'predpos': '$S[position() gt $a]',
-    'sum0': 'sum($S, $z)', 'sjsep': 'string-join(("a","b","c")[position() le $n], $sep)',
+    'sum0': 'sum($S, $z)', 'predfocus': '$S[.]', 'predposfn': '$S[position()]', 'predlast': '$S[last()]',
+    'predarith': '$S[$a + 1]', 'predseq': '($S, $x)[. = $x][$a]', 'sjsep': 'string-join(("a","b","c")[position() le $n], $sep)',
 })
 
 
@@ -254,3 +255,39 @@ def subseq_unbounded(s0: int, s1: int, s2: int, n: int, a: int, b: int) -> bool:
     """
     S = _S(s0, s1, s2, n)
     return ev(T['subseq'], S=S, a=a, b=b) == [v for p, v in enumerate(S, 1) if a <= p < a + b]
+
+
+@ob(budget=120, bound='S: 0..3 unbounded ints: numeric predicates whose value depends on the focus (E[.], E[position()], E[last()], E[$a+1])',
+    funcs=['elementpath/xpath1/_xpath1_operators.py:select__predicate', 'position()', 'last()'])
+def pred_numeric_focus(s0: int, s1: int, s2: int, n: int, a: int) -> bool:
+    """
+    pre: 0 <= n <= 3
+    post: _
+    """
+    S = _S(s0, s1, s2, n)
+    return ev(T['predfocus'], S=S) == [v for p, v in enumerate(S, 1) if v == p] and ev(T['predposfn'], S=S) == S \
+        and ev(T['predlast'], S=S) == S[-1:] and ev(T['predarith'], S=S, a=a) == [v for p, v in enumerate(S, 1) if p == a + 1]
+
+
+@ob(budget=120, bound='S: 0..3 unbounded ints, x, a unbounded: chained predicates (E, x)[. = x][a]', funcs=['select__predicate'])
+def pred_chained(s0: int, s1: int, s2: int, n: int, x: int, a: int) -> bool:
+    """
+    pre: 0 <= n <= 3
+    post: _
+    """
+    S = _S(s0, s1, s2, n)
+    hits = [v for v in S + [x] if v == x]
+    return ev(T['predseq'], S=S, x=x, a=a) == [v for p, v in enumerate(hits, 1) if p == a]
+
+
+@ob(budget=60, tbudget=600, kind='hunt', bound='S: 3 ints; start, length exact quarter-integer doubles k/4, |k| <= 24 (doubles: bug-hunting; the rounding rule itself is decided by the E2 obligation)',
+    funcs=[F2 + ':select__subsequence', 'elementpath/helpers.py:round_number'])
+def subseq_fractional(k: int, j: int) -> bool:
+    """
+    pre: -24 <= k <= 24 and -24 <= j <= 24
+    post: _
+    """
+    S = [10, 20, 30]
+    a, b = k / 4, j / 4
+    ra, rb = (2 * k + 4) // 8, (2 * j + 4) // 8       # floor(x + 1/2) for x = k/4
+    return ev(T['subseq'], S=S, a=a, b=b) == [v for p, v in enumerate(S, 1) if ra <= p < ra + rb]
